@@ -475,6 +475,9 @@ func c13JudgeItems(c *mon.Ctx, in *c13Items) {
 		c.Violationf("C13:encode:error", "EncodeParts(lens %v) failed: %v", in.Lens, err)
 		return
 	}
+	if len(enc) < 4096 {
+		c.Retain("EncodeParts result", func() []byte { return enc })
+	}
 	if !bytes.Equal(enc, want) {
 		toks, tr := refcodec.Tokenize(enc)
 		what := "bytes differ from the minimal-push encoding"
